@@ -363,7 +363,31 @@ def run_extract(ctx):
     return True
 
 
+# bridge lemmas between the hand-written model and the definitions tools/c2lean.py generates from the C++ source text
+# (lean/BinlogVerif/Lemmas/SrcBridge<Area>.lean over Generated/Src<Area>.lean), and the properties that rest on them
+SRC_BRIDGE = {
+    'Queue': ['maximizeWriteCapacity_bridge', 'step_pBegin_model', 'step_pBegin_src', 'beginWrite_bridge', 'writeBuffer_bridge',
+              'endWrite_bridge', 'endRead_bridge', 'beginRead_bridge', 'unreadWriteSize_bridge'],
+    'Time': ['printTwoDigits_ok', 'printTwoDigits_digits', 'printTwoDigits_model', 'printTimeZoneOffset_spec',
+             'clockToNsSinceEpoch_bridge', 'nsSinceEpochToSeconds_spec', 'nsSinceEpochToSeconds_bridge'],
+    'Reader': ['rangeThrowIfOverflow_bridge', 'rangeView_bridge', 'ostreamBufferReserve_bridge', 'ostreamBufferReserve_room',
+               'ostreamBufferFlush_bridge', 'ostreamBufferPut_bridge'],
+    'Recovery': ['checkQueueInvariants_bridge'],
+}
+SRC_BRIDGE_FOR = {'C01': ['Queue'], 'C10': ['Queue'], 'C11': ['Queue'], 'C08': ['Queue', 'Recovery'], 'C20': ['Queue', 'Recovery'],
+                  'C17': ['Time'], 'C09': ['Reader', 'Time'], 'C07': ['Reader'], 'C05': ['Reader'], 'C12': ['Reader']}
+
+
 def proof_step(ctx, module, theorems, extra_targets=None):
+    theorems = list(theorems)
+    extra_targets = list(extra_targets or [])
+    for area in SRC_BRIDGE_FOR.get(ctx.pid, []):
+        extra_targets.append('BinlogVerif.Lemmas.SrcBridge%s' % area)
+        theorems += ['BinlogVerif.SrcBridge.' + t for t in SRC_BRIDGE[area]]
+    return _proof_step(ctx, module, theorems, extra_targets)
+
+
+def _proof_step(ctx, module, theorems, extra_targets=None):
     """Build the property module and audit it.  Returns True iff every obligation is discharged.
     On failure nothing is reported yet: the caller runs the counterexample search first."""
     ctx.obligations = list(theorems)
@@ -417,6 +441,19 @@ def diff_streams(ctx, name, harness_exe, lines, describe=None, env=None):
     (impl_out, model_out, mismatches[list of indices])."""
     t0 = time.time()
     rc_i, impl, err_i = run_lines(harness_exe, lines, env=env)
+    # the real code died in the middle of the stream (sanitizer report, failed assert, crash): remember where, and go on
+    # with the cases after it so that one fatal case does not hide the others
+    died = []
+    restarts = 0
+    while rc_i != 0 and len(impl) < len(lines) and restarts < 8:
+        at = len(impl)
+        died.append((at, err_i[-2500:]))
+        impl.append('<harness died: %s>' % ' '.join(err_i[-300:].split()))
+        restarts += 1
+        rc_i, more, err_i = run_lines(harness_exe, lines[at + 1:], env=env)
+        impl.extend(more)
+    ctx.died = getattr(ctx, 'died', {})
+    ctx.died[name] = died
     rc_m, model, err_m = run_lines(driver_path(), lines)
     st = ctx.streams.setdefault(name, {})
     st['cases'] = len(lines)
@@ -431,6 +468,7 @@ def diff_streams(ctx, name, harness_exe, lines, describe=None, env=None):
         if a != b:
             mism.append(i)
     st['mismatches'] = len(mism)
+    st['impl_died_on_cases'] = [d[0] for d in died]
     if rc_i != 0:
         st['impl_stderr_tail'] = err_i[-1500:]
     return impl, model, mism
